@@ -195,6 +195,13 @@ class C13(Property):
                 toks += ["?" + bits(times[j]) for j in sorted({i, max(0, i - 1), min(n - 1, i + 1), n - 1, n - 5 if n > 5 else 0})]
             toks += ["?" + bits(t + 50.0) for t in times[::3]] + ["?" + bits(-1.0)]
             cases.append(Case("cpops " + " ".join(toks), tags=("long-list-replace",)))
+        # timing points a whole number of bars after the active one, with the same beat length and meter: every timing point is stored (only
+        # difficulty / effect / sample points can "merely repeat"; seed C13-v: a bar-aligned restatement treated as redundant)
+        tb = [f"T:{bits(t)}:{bits(b)}:{o}:{n}" for t in (0.0, 1000.0, 2000.0, 3000.0, 7000.0) for (b, o, n) in ((500.0, 0, 4), (250.0, 0, 4), (500.0, 0, 3), (500.0, 1, 4))]
+        bar_probes = " ".join("?" + bits(t) for t in (-1.0, 0.0, 500.0, 1000.0, 2000.0, 2500.0, 3000.0, 7000.0, 8000.0))
+        for k in (2, 3):
+            for combo in itertools.product(tb, repeat=k):
+                cases.append(Case("cpops " + " ".join(combo + (bar_probes,)), tags=("exhaustive-bar-aligned-timing",)))
         # F8 witnesses and neighbours
         for a, b in [(PZERO, NZERO), (NZERO, PZERO), (PZERO, PZERO), (NZERO, NZERO)]:
             for kind in "TDES":
